@@ -264,7 +264,7 @@ package router
 //@   oncall ReleaseBuf: nRelC = nRelC + (nGet >= 2 && sameObj(arg0, gC) ? 1 : 0)
 //@   callsite Pack: [C07,C20:packs-into-its-own-live-buffer] nGet == 1 && arg1 == gP && nRelP == 0
 //@   callsite Encode?: [C07:compresses-exactly-the-packed-bytes] sameSlice(arg1, gP, 0, gN)
-//@   callsite Encode?: [C20:scratch-buffers-owned-and-distinct-while-in-use] nRelP == 0 && nRelC == 0 && nGet == 2 && arg0 == gC
+//@   callsite Encode?: [C07,C20:scratch-buffers-owned-and-distinct-while-in-use] nRelP == 0 && nRelC == 0 && nGet == 2 && arg0 == gC
 //@   callsite CopyBuf?: [C07,C20:private-copy-of-the-compressed-bytes-taken-while-they-are-owned] arg0 == gEnc && nRelC == 0
 //@   callsite ReleaseBuf: [C20:only-its-own-scratch-buffers] (nGet >= 1 && sameObj(arg0, gP)) || (nGet >= 2 && sameObj(arg0, gC))
 //@   ensures [C20:scratch-buffers-released-exactly-once] nRelP == 1 && nRelC == (nGet == 2 ? 1 : 0)
@@ -279,8 +279,8 @@ package router
 //@   ghost nRelS int = 0
 //@   aftercall GetBuf?: gS = ret0
 //@   oncall ReleaseBuf?: nRelS = nRelS + 1
-//@   callsite Decode?: [C20:decodes-into-its-own-live-buffer] arg0 == gS && nRelS == 0
-//@   callsite UnpackMsg?: [C20:scratch-still-owned-while-it-is-parsed] nRelS == 0
+//@   callsite Decode?: [C07,C20:decodes-into-its-own-live-buffer] arg0 == gS && nRelS == 0
+//@   callsite UnpackMsg?: [C07,C20:scratch-still-owned-while-it-is-parsed] nRelS == 0
 //@   callsite ReleaseBuf?: [C20:its-own-scratch-buffer-once] sameObj(arg0, gS) && nRelS == 0
 //@   modifies nothing
 //@   ensures err == nil ==> r != nil && fresh(r) && wfMsg(r) && freshElems(r)
